@@ -107,6 +107,16 @@ def maxdiff(a, b):
     return float(np.abs(a - b).max()) if a.size else 0.0
 
 
+def pair_fc(scell, cutoff):
+    """gen.pair_fc with enough periodic images for skewed supercells: a vector v = sum n_i a_i has
+    |n_i| = |v . b_i| <= |v| |b_i| (b_i reciprocal vectors), fractional differences add at most 1."""
+    from .. import gen
+
+    rec = np.linalg.inv(scell.cell)
+    k = int(np.ceil(cutoff * np.linalg.norm(rec, axis=0).max())) + 1
+    return gen.pair_fc(scell, cutoff, images=max(2, k))
+
+
 def random_born_eps(rng, npa, scale=2.0):
     """random (unsymmetrised) Born charges and a symmetric positive definite dielectric tensor
     with entries k/8."""
